@@ -559,6 +559,11 @@ class Model:
             raise Ambiguous('%s: awaited event and interrupt in the same time step' % p.name)
         if p.waiting == 'timer' and getattr(p, 'timer_due', None) == self.now:
             raise Ambiguous('%s: timeout due and interrupt in the same time step' % p.name)
+        child = getattr(p.waiting, 'of_proc', None) if isinstance(p.waiting, MEvent) else None
+        if child is not None and child.alive:
+            # torn out of the wait for its own sub-process, the parent goes on next to it - on the same phase: from here
+            # on the two may act in one time step, in an order the statement does not settle
+            raise InvalidCase('a process interrupted while it waits for its sub-process shares its phase with it')
         cause = p.interrupts.pop(0)
         self.last_interrupt[p.name] = self.now
         p.token += 1            # abandon the current wait
@@ -625,6 +630,7 @@ class Model:
                 # (a child that fails before its first yield: its parent began to wait in the activation that created it,
                 #  before the child could run at all - no same-step race)
                 c.result.own_child = bool(s['child'].get('noyield'))
+                c.result.of_proc = c
                 self.procs[c.name] = c
                 self.push(self.now, ('start', c))
                 return self.block(p, i, c.result)
